@@ -42,6 +42,7 @@ Sweep: C20.3 the data watch fires only when the version changed; C20.5 the monit
 Fifth round: C20.2 an instance node is created by one direct sequence create per requested instance (never through a retry wrapper); C20.4 updating a monitor replaces the stored count or policy only by a value that was given; C20.6 the deleted / no-stat cases are followed through named booleans.
 Sixth round: C20.1 the map of waiting monitors handed to an evaluation is a mapping on every path (never None).
 Seventh round: C20.4 the delete request of the scale-down branch does not depend on the rate budget; C20.6 a handled failure class suspends the monitor either in its handler or through a reason left for the block after the try (decided path-sensitively for the constant-valued local).
+Ninth round: C20.6 state['suspended'] and state['monitors'] are changed in place and never re-bound after the state dictionary was built.
 Does NOT decide convergence and budget over sequences of evaluations.
 """
 
